@@ -232,7 +232,19 @@ API_OPS = {
     "unitaries.rotate_psi": [("rotate", "rotate_psi")], "unitaries.rotate_rho": [("rotate", "rotate_rho")],
     "unitaries.rotate_psi_inner_prod": [("rotate", "inner_prod")], "unitaries.rotate_rho_probs": [("rotate", "rho_probs")],
 }
+# the anchored RBM classes' public methods, reachable on a state through `NeuralStateBase.__getattr__` (introspected as "rbm.<name>")
+_FWD_EVAL = ["effective_energy", "effective_energy_gradient", "partition", "prob_h_given_v", "prob_v_given_h", "prob_a_given_v",
+             "prob_v_given_ha", "mixing_term", "gamma", "gamma_grad"]
+API_OPS.update({f"rbm.{n}": [("eval", "fwd_" + n)] for n in _FWD_EVAL})
+API_OPS["rbm.gibbs_steps"] = [("batchGradient", "fwd")]
+_ONE_STEP = ("one half-step of the Gibbs chain; public only through attribute forwarding; its only caller in the library is gibbs_steps, which IS "
+             "executed (through sample / statistics / fit and directly as the forwarded state.gibbs_steps); the direct call has no operation of its "
+             "own in the frame model (scope note in claims.d/C14.json)")
 API_EXCLUDED = {
+    "rbm.initialize_parameters": "WRITES and DRAWS: re-initialises ONE network; the public state-level call is reinitialize_parameters (op `reinit`, all "
+                                 "networks), which calls it for every network; the forwarded state.initialize_parameters() (rbm_am only) has no operation "
+                                 "of its own in the frame model (scope note in claims.d/C14.json) — listed so that it is visibly NOT read-only",
+    "rbm.sample_h_given_v": _ONE_STEP, "rbm.sample_v_given_h": _ONE_STEP, "rbm.sample_a_given_v": _ONE_STEP, "rbm.sample_v_given_ha": _ONE_STEP,
     "state.autoload": "static constructor: builds a NEW object and loads into it (= construct + load; C11 examines it); not a read-only operation",
     "observables.to_01": "pure conversion of a tensor, takes no model", "observables.to_pm1": "pure conversion of a tensor, takes no model",
     "unitaries.create_dict": "builds a dictionary, takes no model",
@@ -240,6 +252,8 @@ API_EXCLUDED = {
 
 
 def op_class(op):
+    if op["t"] == "batchGradient":
+        return (op["t"], "fwd" if op.get("fwd") else None)
     return (op["t"], op.get("what") if op["t"] in ("eval", "metric", "rotate", "gradient") else None)
 
 
@@ -428,6 +442,8 @@ def whats_of(kind):
     wf = kind != "dens"
     ev = ["psi", "probability", "normalization", "apply", "sfs", "sys_sfs", "is_denominator", "is_numerator", "is_weight",
           "hilbert_space", "subspace_vector", "compute_normalization"] + (["amplitude", "phase"] if wf else ["rho2", "pi"])
+    ev += ["fwd_" + x for x in (["effective_energy", "effective_energy_gradient", "partition", "prob_h_given_v"]
+                                + (["prob_v_given_h"] if wf else ["prob_a_given_v", "prob_v_given_ha", "mixing_term", "gamma", "gamma_grad"]))]
     gr = ["gradient", "positive_phase", "exact"] + {"pos": ["exact_grads"], "cplx": ["rotated", "am_grads", "ph_grads"],
                                                      "dens": ["rotated", "am_grads", "ph_grads", "pi_grad"]}[kind]
     ro = ["rotate_psi", "inner_prod"] if wf else ["rotate_rho", "rho_probs"]
@@ -437,7 +453,7 @@ def whats_of(kind):
 def all_wants(kind):
     """one request per operation class the API table names, for an object of this kind (save before load)"""
     w = whats_of(kind)
-    return (["sample", "sample:ow", "obsSample", "statistics", "statistics:ow", "fit", "fit:evaluator", "batchGradient", "reinit", "save", "save:md"]
+    return (["sample", "sample:ow", "obsSample", "statistics", "statistics:ow", "fit", "fit:evaluator", "batchGradient", "batchGradient:fwd", "reinit", "save", "save:md"]
             + [f"{t}:{x}" for t in ("eval", "metric", "rotate", "gradient") for x in w[t]])
 
 
@@ -514,7 +530,7 @@ def gen_lib_op(rng, slot, cons, files, want=None):
             op["obs"] = one_obs()
         if w == "sys_sfs":
             op["obss"] = rng.choice([["SigmaZ", "SigmaX"], ["Composite", "SigmaY"], ["SWAP"]])
-        if w in ("rho2", "pi", "is_numerator", "is_weight"):
+        if w in ("rho2", "pi", "is_numerator", "is_weight", "fwd_gamma", "fwd_gamma_grad"):
             op["rows2"] = bits_rows(rng, len(op["rows"]), n)
         if w == "pi":
             op["expand"] = rng.random() < 0.5
@@ -556,8 +572,12 @@ def gen_lib_op(rng, slot, cons, files, want=None):
         return op
     if c < 0.89:
         r = rows(2, 4)
-        return {"t": "batchGradient", "slot": slot, "k": rng.randint(1, 3), "rows": r, "neg": rows(1, 4),
-                "bases": some_bases(len(r))}
+        op = {"t": "batchGradient", "slot": slot, "k": rng.randint(1, 3), "rows": r, "neg": rows(1, 4),
+              "bases": some_bases(len(r))}
+        if forced == "fwd" or (forced is None and rng.random() < 0.25):
+            op["fwd"] = True  # state.gibbs_steps(k, chains): the RBM's public method through the state's attribute forwarding (same chains, same draws)
+            op["k"] = rng.randint(0, 3)
+        return op
     if c < 0.93:
         return {"t": "reinit", "slot": slot}
     key = json.dumps([kind, n, cons["h"], cons["a"]])
